@@ -1,0 +1,73 @@
+//go:build verif
+
+package protocol
+
+// Verification hooks (build tag `verif` only). With the tag off,
+// verif_off.go supplies `verifEnabled = false` and a no-op verifTrace, and
+// every call site `if verifEnabled { ... }` compiles to nothing.
+
+const verifEnabled = true
+
+// VerifTrace, when non-nil, receives one call per engine event. It must be
+// set before any Protocol is started and must be safe for concurrent use.
+//
+// kinds (a, b, c):
+//
+//	enq      message about to be pushed on the send queue (type, len, 0)
+//	enqfail  that push was abandoned because of shutdown (type, len, 0)
+//	stok     sendLoop consumed a sendReady token
+//	rtok     recvLoop consumed a recvReady token
+//	deq      sendLoop took a message off the send queue and appended it to the
+//	         payload buffer (type, len, position in batch starting at 1)
+//	strans   sendLoop requests the state transition of a sent message
+//	         (type, 0 = head of batch / 1 = queued earlier, 0)
+//	rtrans   recvLoop requests the state transition of a received message (type,0,0)
+//	seg      a segment was handed to the muxer (payload len, 0, 0)
+//	rq       readLoop is about to push a decoded message on the recv queue (type, len, 0)
+//	state    stateLoop set the state (state id, agency, 1 if initial)
+//	tokput   stateLoop offered a ready token (0 = send / 1 = recv, 1 if the channel was full, 0)
+//	arm      a state timer was armed (state id, timeout in ns, 0)
+//	trans    a transition was applied (from id, to id, msg type)
+//	transerr a transition was refused (from id, 0, msg type)
+//	timeout  the state timer fired (state id, 0, 0)
+//	handle   the message handler is about to be called (type, 0, 0)
+//	handled  the message handler returned (type, 0, 0)
+//	error    an error was delivered to ErrorChan (data = text)
+//	errdrop  an error was dropped because ErrorChan was full (data = text)
+//	stop     Stop() closed stopChan
+var VerifTrace func(p *Protocol, kind string, a, b, c uint64, data []byte)
+
+func verifTrace(p *Protocol, kind string, a, b, c uint64, data []byte) {
+	if f := VerifTrace; f != nil {
+		f(p, kind, a, b, c, data)
+	}
+}
+
+// VerifStateMap returns the state map this protocol instance runs with.
+func (p *Protocol) VerifStateMap() StateMap { return p.config.StateMap }
+
+// VerifSetStateMap replaces the state map (before Start only); used to run
+// with scaled-down timeouts.
+func (p *Protocol) VerifSetStateMap(sm StateMap) { p.config.StateMap = sm }
+
+// VerifInitialState returns the configured initial state.
+func (p *Protocol) VerifInitialState() State { return p.config.InitialState }
+
+// VerifCurrentState returns the current state.
+func (p *Protocol) VerifCurrentState() State { return p.getCurrentState() }
+
+// VerifNextState runs the engine's own transition lookup (including match
+// functions, which may update the protocol's state context).
+func (p *Protocol) VerifNextState(s State, msg Message) (State, error) {
+	return p.nextState(s, msg)
+}
+
+// VerifConfig returns a copy of the protocol configuration.
+func (p *Protocol) VerifConfig() ProtocolConfig { return p.config }
+
+// VerifPendingBytes returns the pending send/receive byte counters.
+func (p *Protocol) VerifPendingBytes() (send, recv int) {
+	p.pendingBytesMu.Lock()
+	defer p.pendingBytesMu.Unlock()
+	return p.pendingSendBytes, p.pendingRecvBytes
+}
